@@ -33,7 +33,7 @@ def fill(rng, length, triplets=True, dots=True):
     return out
 
 
-def make_doc(rng, chords=True, ties="notes", grace=True, meter_change=True, pickup=True, same_part=False):
+def make_doc(rng, chords=True, ties="notes", grace=True, meter_change=True, pickup=True, same_part=False, splits=False):
     nsp = rng.choice([1, 2, 2, 3]) if not same_part else rng.choice([2, 2, 3])
     beats, bt = rng.choice([(4, 4), (3, 4), (2, 4), (6, 8), (2, 2), (3, 8)])
     nbars = rng.randint(1, 3)
@@ -101,6 +101,18 @@ def make_doc(rng, chords=True, ties="notes", grace=True, meter_change=True, pick
             a["ties"][ia] = "_" if a["ties"][ia] == "]" else "["
             b["ties"][ib] = "]"
         spines.append(bars)
+    # a spine split: for one bar one spine runs as two sub-spines
+    split = None
+    numbered = [bi for bi, (num, _, _) in enumerate(plan) if num is not None]
+    if splits and numbered and rng.random() < 0.6:
+        bi = rng.choice(numbered)
+        j = rng.randrange(nsp)
+        sub = []
+        for (recip, dots), d in fill(rng, plan[bi][1]):
+            rest = rng.random() < 0.2
+            p = (rng.choice("CDEFGAB"), rng.choice([-1, 0, 0, 1]), rng.randint(2, 6))
+            sub.append({"recip": recip, "dots": dots, "dur": d, "rest": rest, "pitches": [] if rest else [p], "ties": [] if rest else [""], "grace": False})
+        split = (j, bi, sub)
     staffs = [nsp - j for j in range(nsp)]
     clefs = [("G", 2) if staffs[j] == 1 else rng.choice([("F", 4), ("C", 3), ("G", 2)]) for j in range(nsp)]
     # ---- lines
@@ -125,12 +137,22 @@ def make_doc(rng, chords=True, ties="notes", grace=True, meter_change=True, pick
             text.append("\t".join(["=%d" % num] * nsp))
         if ch is not None:
             interp([dict(nul, kind="meter", a=ch[0], b=ch[1]) for j in range(nsp)], ["*M%d/%d" % ch] * nsp)
+        # the columns of this bar: one per spine, two for a split spine
+        cols = []
+        for j in range(nsp):
+            cols.append(spines[j][bi])
+            if split is not None and split[0] == j and split[1] == bi:
+                cols.append(split[2])
+        if len(cols) > nsp:
+            js = split[0]
+            lines.append({"kind": "path", "number": "", "toks": [dict(nul, kind="split" if j == js else "null") for j in range(nsp)]})
+            text.append("\t".join("*^" if j == js else "*" for j in range(nsp)))
         # events of this bar by onset; grace notes get a line of their own before the event they precede
         rows = {}
-        for j in range(nsp):
+        for j in range(len(cols)):
             t = Fraction(0)
             k = 0
-            for e in spines[j][bi]:
+            for e in cols[j]:
                 if e["grace"]:
                     rows.setdefault((t, 0, j, k), {})[j] = e
                     k += 1
@@ -140,7 +162,7 @@ def make_doc(rng, chords=True, ties="notes", grace=True, meter_change=True, pick
                     k = 0
         for key in sorted(rows):
             toks, texts = [], []
-            for j in range(nsp):
+            for j in range(len(cols)):
                 e = rows[key].get(j)
                 if e is None:
                     toks.append(dict(nul))
@@ -159,8 +181,12 @@ def make_doc(rng, chords=True, ties="notes", grace=True, meter_change=True, pick
                 texts.append(" ".join(subs))
             lines.append({"kind": "data", "number": "", "toks": toks})
             text.append("\t".join(texts))
+        if len(cols) > nsp:
+            js = split[0]
+            lines.append({"kind": "path", "number": "", "toks": [dict(nul, kind="join" if c in (js, js + 1) else "null") for c in range(len(cols))]})
+            text.append("\t".join("*v" if c in (js, js + 1) else "*" for c in range(len(cols))))
     lines.append({"kind": "bar", "number": "", "toks": [dict(nul) for _ in range(nsp)]})
     text.append("\t".join(["=="] * nsp))
     text.append("\t".join(["*-"] * nsp))
-    meta = {"nspines": nsp, "same_part": same_part, "staffs": staffs, "pickup": has_pickup, "meter_change": change_at is not None, "nbars": nbars}
+    meta = {"nspines": nsp, "split": split is not None, "same_part": same_part, "staffs": staffs, "pickup": has_pickup, "meter_change": change_at is not None, "nbars": nbars}
     return {"nspines": nsp, "lines": lines}, "\n".join(text) + "\n", meta
